@@ -122,7 +122,7 @@ impl Format for Wdt {
                 ("mop_terrain_all_4096_tiles", wdt_build_n(4, 0x2 | 0x4 | 0x8 | 0x40 | 0x80, &all, 0, false), 4),
                 ("wod_terrain_1tile", wdt_build_n(5, 0x40 | 0x80, &[(32, 32)], 0, false), 5),
                 ("shadowlands_terrain_nomaid", wdt_build_n(8, 0x40 | 0x80 | 0x100, &t3, 0, false), 8),
-                ("dragonflight_maid_3tiles", wdt_build_n(9, 0x200 | 0x40, &t3, 0, true), 9),
+                ("dragonflight_wmo_only_2modf", wdt_build_n(9, 0x1 | 0x40, &[], 2, false), 9),
             ];
             for (n, b, aux) in more {
                 let mut s = chunked_seed("wdt", n, b, aux, &[], 32, 64);
